@@ -380,3 +380,27 @@ TRUSTED_BASE = [
     "hand-written Gallina model tied to the Rust by differential testing on generated inputs (generator coverage reported in this file)",
     "rustc 1.95, Rust core/std (char::to_uppercase, str/UTF-8, encode_utf16), bitflags",
 ]
+
+
+def exact_fit_sectors(bps, bpc, start, want_bits, span=6000, fats="-", variant="default"):
+    """smallest total sector count >= start for which the library's own format (boot-sector hook, `fmtbs`) yields a volume of
+    the wanted FAT width whose table has NO spare entry behind the last cluster (entries = clusters + 2 exactly), or None"""
+    lines = ["%s %d %s %s - %s - - -" % (bps, start + i, bpc, want_bits, fats) for i in range(span)]
+    out = exec_raw(["fmtbs"], "\n".join(lines) + "\n", variant=variant).split("\n")[:-1]
+    for i, o in enumerate(out):
+        t = o.split(" ")
+        if t[0] != "ok":
+            continue
+        b = bytes.fromhex(t[-1])
+        bps_ = int.from_bytes(b[11:13], "little"); spc = b[13]; res = int.from_bytes(b[14:16], "little"); nf = b[16]
+        root = int.from_bytes(b[17:19], "little")
+        ts = int.from_bytes(b[19:21], "little") or int.from_bytes(b[32:36], "little")
+        spf = int.from_bytes(b[22:24], "little") or int.from_bytes(b[36:40], "little")
+        rds = (root * 32 + bps_ - 1) // bps_
+        clusters = (ts - res - nf * spf - rds) // spc
+        bits = 12 if clusters < 4085 else 16 if clusters < 65525 else 32
+        if bits != want_bits:
+            continue
+        if spf * bps_ * 8 // bits == clusters + 2:
+            return start + i
+    return None
